@@ -6,6 +6,7 @@ import (
 	"fmt"
 	"math/big"
 	mrand "math/rand"
+	"os"
 	"runtime"
 	"sort"
 	"strings"
@@ -47,6 +48,12 @@ type SealPlan struct {
 	Steps      []SealStep     `json:"steps"`
 	Damage     []SealDamage   `json:"damage"`
 	RandomSeal int            `json:"random_seals"` // unsealed headers with seeded nonces judged by both verifiers
+	// Heights, when set, are the heights of the consecutive Seal calls (net
+	// "ethash": version-1 heights in epochs 0..2, test-mode DAG sizes).
+	Heights []uint64 `json:"heights,omitempty"`
+	// DirtyTemplate: the block handed to Seal carries a stale nonce and mix
+	// digest (a re-used template).
+	DirtyTemplate bool `json:"dirty_template,omitempty"`
 }
 
 func DecodeSealPlan(raw json.RawMessage) (any, error) {
@@ -57,6 +64,7 @@ func HashSealPlan(p any) uint64 { b, _ := json.Marshal(p); return kernel.HashByt
 
 // the built-in schedules, as literals (HF5 / HF8 / HF9 heights)
 var sealNetForks = map[string]map[int]uint64{
+	"ethash":   {5: 1 << 40},
 	"aqua":     {5: 22800},
 	"testnet":  {5: 5, 8: 650},
 	"testnet2": {5: 0, 8: 8, 9: 19},
@@ -73,14 +81,17 @@ func builtinCfg(net string) *params.ChainConfig {
 		return params.Testnet2ChainConfig
 	case "testnet3":
 		return params.Testnet3ChainConfig
+	case "ethash":
+		return cfgFor(sealNetForks["ethash"], 7715)
 	}
 	return nil
 }
 
 func GenSealPlan(rng *kernel.RNG, env *kernel.Env, k int) any {
 	p := &SealPlan{HeaderSalt: rng.Uint64(), ExtraLen: rng.Intn(33), Seals: 1 + rng.Intn(3)}
-	nets := []string{"custom", "custom", "custom", "aqua", "testnet", "testnet2", "testnet3"}
+	nets := []string{"custom", "custom", "custom", "aqua", "testnet", "testnet2", "testnet3", "ethash"}
 	p.Net = nets[rng.Intn(len(nets))]
+	p.DirtyTemplate = rng.Intn(3) == 0
 	var forks map[int]uint64
 	if p.Net == "custom" {
 		a := uint64(rng.Intn(6))
@@ -97,6 +108,19 @@ func GenSealPlan(rng *kernel.RNG, env *kernel.Env, k int) any {
 	} else {
 		forks = sealNetForks[p.Net]
 	}
+	if p.Net == "ethash" {
+		// version 1 everywhere; heights inside DAG epoch 0 (on the unchanged tree
+		// test-mode datasets of later epochs do not verify, and no built-in
+		// network stays on version 1 beyond height 22800)
+		spots := []uint64{1, 2, 17, 1000, 22799, 29990, 29998}
+		p.Seals = 2 + rng.Intn(3)
+		for i := 0; i < p.Seals; i++ {
+			p.Heights = append(p.Heights, spots[rng.Intn(len(spots))])
+		}
+		p.Number = p.Heights[0]
+		hs := []uint64{0}
+		_ = hs
+	}
 	// a height at or just after a version-changing fork (never a version-1 height)
 	var hs []uint64
 	for _, hf := range []int{5, 8, 9} {
@@ -104,13 +128,15 @@ func GenSealPlan(rng *kernel.RNG, env *kernel.Env, k int) any {
 			hs = append(hs, h)
 		}
 	}
-	base := hs[rng.Intn(len(hs))]
-	p.Number = base + uint64(rng.Intn(3))
-	if rng.Intn(3) == 0 && base > forks[5] {
-		p.Number = base - 1 // last height of the previous version
-	}
-	if p.Number == 0 {
-		p.Number = 1
+	if p.Net != "ethash" {
+		base := hs[rng.Intn(len(hs))]
+		p.Number = base + uint64(rng.Intn(3))
+		if rng.Intn(3) == 0 && base > forks[5] {
+			p.Number = base - 1 // last height of the previous version
+		}
+		if p.Number == 0 {
+			p.Number = 1
+		}
 	}
 	switch rng.Intn(5) {
 	case 0:
@@ -155,6 +181,9 @@ func GenSealPlan(rng *kernel.RNG, env *kernel.Env, k int) any {
 			d.Arg = []int64{0, -1, -p.Difficulty, 1, p.Difficulty, p.Difficulty * 7, 1 << 40, -(1 << 40)}[rng.Intn(8)]
 		case "number":
 			d.Arg = []int64{1, -1, 2, -2, 5, -5, 11, 650, 22800}[rng.Intn(9)]
+			if p.Net == "ethash" {
+				d.Arg = []int64{1, -1, 2, -2, 7, 30000}[rng.Intn(6)]
+			}
 		default:
 			d.Arg = int64(1 + rng.Intn(200))
 		}
@@ -196,6 +225,10 @@ func (r *sealRun) mkBlock(number uint64, salt uint64) *types.Block {
 	copy(h.ParentHash[:], rng.Bytes(32))
 	copy(h.Root[:], rng.Bytes(32))
 	copy(h.Coinbase[:], rng.Bytes(20))
+	if r.p.DirtyTemplate {
+		copy(h.MixDigest[:], rng.Bytes(32))
+		h.Nonce = types.EncodeNonce(rng.Uint64())
+	}
 	// the miner's worker hands Seal a header whose version is already set from the height
 	h.Version = params.HeaderVersion(refmodel.HeaderVersion(r.forks, number))
 	return types.NewBlock(h, nil, nil, nil)
@@ -275,13 +308,16 @@ func execSeal(p *SealPlan, col *kernel.Collector) []kernel.Violation {
 		}
 	}
 	version := refmodel.HeaderVersion(r.forks, p.Number)
-	if version < 2 {
+	if version < 2 && p.Net != "ethash" {
 		col.Inc("skipped_version1_height")
 		return nil
 	}
 	col.Inc(fmt.Sprintf("probe_seal_version_%d", version))
 	rd := &simReader{cfg: r.cfg, byHash: map[common.Hash]*types.Header{}, blocks: map[common.Hash]*types.Block{}}
 	e := aquahash.New(&aquahash.Config{PowMode: aquahash.ModeNormal, StartVersion: 2})
+	if p.Net == "ethash" {
+		e = aquahash.New(ethashTestConfig())
+	}
 	e.SetThreads(p.Threads)
 
 	s := New()
@@ -304,8 +340,13 @@ func execSeal(p *SealPlan, col *kernel.Collector) []kernel.Violation {
 	nextNumber := p.Number
 	var sealer *Actor
 	var sealing bool
+	sealIdx := 0
 	startSeal := func() {
-		b := r.mkBlock(nextNumber, p.HeaderSalt)
+		if sealIdx < len(p.Heights) {
+			nextNumber = p.Heights[sealIdx]
+		}
+		sealIdx++
+		b := r.mkBlock(nextNumber, p.HeaderSalt+uint64(sealIdx))
 		nextNumber++
 		sealing = true
 		if stopped {
@@ -536,7 +577,7 @@ func (r *sealRun) judgeSeal(e *aquahash.Aquahash, rd *simReader, in, out *types.
 		r.add("sealed-block-is-not-the-block-given", "Seal(#%d) returned a block whose seal-free content differs from the one it was given (#%d)", in.NumberU64(), out.NumberU64())
 		return
 	}
-	if ok, why := refmodel.SealVerdict(version, toRef(h)); !ok {
+	if ok, why := r.refVerdict(rd, version, h); !ok {
 		r.add("miner-returns-invalid-seal", "Seal returned nonce %d for #%d difficulty %v (version %d, %d threads): reference verifier rejects it (%s)", h.Nonce.Uint64(), h.Number, h.Difficulty, version, r.p.Threads, why)
 		return
 	}
@@ -554,6 +595,43 @@ func (r *sealRun) judgeSeal(e *aquahash.Aquahash, rd *simReader, in, out *types.
 	}
 }
 
+// ethashTestConfig: test-mode sizes; datasets go to a scratch directory (with an
+// empty directory name the engine would write them into the working directory).
+func ethashTestConfig() *aquahash.Config {
+	return &aquahash.Config{CachesInMem: 1, DatasetsInMem: 1, DatasetsOnDisk: 1, DatasetDir: ethashDir(), PowMode: aquahash.ModeTest}
+}
+
+var ethashScratch string
+
+func ethashDir() string {
+	if ethashScratch == "" {
+		// inside the driver's scratch directory (removed when the check ends)
+		base := os.Getenv("VERIF_OUT")
+		if base != "" {
+			os.MkdirAll(base, 0o755)
+		}
+		ethashScratch, _ = os.MkdirTemp(base, "c14-ethash-")
+	}
+	return ethashScratch
+}
+
+// refVerdict: the independent verifier for versions 2..4; for version 1
+// (ethash, test-mode sizes) a freshly created engine that has never seen
+// another epoch — the long-lived engine's caches must not change a verdict.
+func (r *sealRun) refVerdict(rd *simReader, version int, h *types.Header) (bool, string) {
+	if version >= 2 {
+		return refmodel.SealVerdict(version, toRef(h))
+	}
+	fresh := aquahash.New(ethashTestConfig())
+	cp := types.CopyHeader(h)
+	cp.Version = 1
+	r.col.Inc("ethash_fresh_engine_verdicts")
+	if err := fresh.VerifySeal(rd, cp); err != nil {
+		return false, strings.ReplaceAll(err.Error(), " ", "-")
+	}
+	return true, ""
+}
+
 // compare: engine verdict == reference verdict for header h.
 func (r *sealRun) compare(e *aquahash.Aquahash, rd *simReader, h *types.Header, what string) {
 	r.col.Tick()
@@ -561,11 +639,11 @@ func (r *sealRun) compare(e *aquahash.Aquahash, rd *simReader, h *types.Header, 
 	if h.Number.Sign() < 0 {
 		return
 	}
-	if version < 2 {
+	if version < 2 && r.p.Net != "ethash" {
 		r.col.Inc("damage_moved_to_version1_height_skipped")
 		return
 	}
-	want, why := refmodel.SealVerdict(version, toRef(h))
+	want, why := r.refVerdict(rd, version, h)
 	acc, errText, pan := r.engineVerdict(e, rd, h)
 	r.col.Inc("verdicts_compared")
 	if want {
